@@ -479,7 +479,10 @@ def phRead (cfg : PhCfg) (lines : List Str) : Except Err (List (Str × Str)) :=
       let st0 : PhSt := ⟨[], 0, ntax, nchar⟩
       match (if cfg.interleaved then phInterleaved cfg st0 false (-1) body else phSequential cfg st0 none body) with
       | .error e => .error e
-      | .ok st => if st.processed != ntax then .error .count else .ok st.rows
+      | .ok st =>
+        if st.processed != ntax then .error .count
+        -- "Wrong number of characters for taxon": every sequence must have exactly NCHAR characters
+        else if st.rows.all (fun r => r.2.length == nchar) then .ok st.rows else .error .count
     | _ => .error .header
 
 
